@@ -98,6 +98,28 @@ func init() {
 				core.Dominated{Fn: ex + "execTxOne", Spec: sp, Sink: core.StoreSink(r.W, "types.Receipt.KV"), Need: need, Min: 1}.Check(r)
 				core.Dominated{Fn: ex + "execTxOne", Spec: sp, Sink: core.SuccessReturn(-1), Need: need, Min: 1}.Check(r)
 			}),
+			rule("R11f", "transaction-scoped bookkeeping of the state/local databases: who may write it, and it is read before it is reset", 8, func(r *Run) {
+				// The rollback mark, the open-transaction flag and the remote-begin flag describe the
+				// whole Begin..Commit/Rollback scope (a group); the per-member StartTx must not touch them.
+				whoMayStoreField(r, "executor.LocalDB", "txkvs", []string{"Begin", "save"})
+				whoMayStoreField(r, "executor.LocalDB", "hasbegin", []string{"Begin", "save", "resetTx"})
+				whoMayStoreField(r, "executor.LocalDB", "intx", []string{"Begin", "resetTx"})
+				whoMayStoreField(r, "executor.StateDB", "intx", []string{"Begin", "Commit", "resetTx"})
+				// Rollback/Commit decide the remote rollback/commit from hasbegin and the buffer from
+				// txkvs/intx: those reads must precede the reset of the same fields.
+				for _, m := range []string{"Rollback", "Commit"} {
+					for _, fld := range []string{"hasbegin", "intx", "txkvs"} {
+						noReadAfterReset(r, "executor.(*LocalDB)."+m, "executor.LocalDB", fld)
+					}
+				}
+				// the remote transaction is rolled back / committed iff it was begun
+				core.Dominated{Fn: "executor.(*LocalDB).Rollback", Spec: &core.FlowSpec{Assume: assumeRecvField("hasbegin", core.True),
+					Calls: []core.CallGuard{called("remote-rolled-back", "client.QueueProtocolAPI.LocalRollback")}},
+					Sink: core.AnyReturn(), Need: []Fact{"remote-rolled-back"}, Min: 1}.Check(r)
+				core.Dominated{Fn: "executor.(*LocalDB).Commit", Spec: &core.FlowSpec{Assume: assumeRecvField("hasbegin", core.True),
+					Calls: []core.CallGuard{called("remote-committed", "client.QueueProtocolAPI.LocalCommit"), errNil("saved", "executor.(*LocalDB).save")}},
+					Sink: core.SuccessReturn(-1), Need: []Fact{"saved"}, Min: 1}.Check(r)
+			}),
 			rule("R11e", "rejections inside the per-transaction checks are live", 3, func(r *Run) {
 				core.LiveReturn{Fn: ex + "checkKV", Sentinels: []string{"types.ErrNotAllowMemSetKey"}}.Check(r)
 				core.LiveReturn{Fn: ex + "checkKeyAllow", Sentinels: []string{"types.ErrNotAllowKey"}}.Check(r)
